@@ -397,3 +397,36 @@ pub fn compose(corpus: &[String], rng: &mut Rng) -> String {
     }
     s
 }
+
+
+/// Typst markup with function calls: positional and named arguments in any order (strings, content blocks, labels,
+/// lengths, nested calls), for the functions whose arguments the front-end treats specially and for ordinary ones.
+pub fn typst_calls(rng: &mut Rng, prose: &str) -> String {
+    let funcs = ["image", "cite", "bibliography", "raw", "rgb", "plugin", "regex", "figure", "link", "text", "table", "heading", "par", "emph", "strong",
+        "lorem", "std.image", "color.rgb", "datetime.today().display", "footnote", "quote", "highlight", "box", "grid"];
+    let mut arg = |rng: &mut Rng, depth: usize| -> String {
+        let named = ["width", "height", "style", "lang", "title", "alt", "supplement", "theme", "fill", "caption", "columns", "block", "full"];
+        let val = match rng.below(9) {
+            0 => format!("\"{}\"", ["a.png", "works.bib", "ieee", "rust", "x", "References", "#ff0000", "[a-z]+", "An teh value"][rng.below(9)]),
+            1 => format!("[{}]", ["p. 7", "Some teh content", "*bold* text", "", "#emph[nested]"][rng.below(5)]),
+            2 => "<key>".to_string(),
+            3 => ["80%", "2cm", "1fr", "12pt", "auto", "none", "true", "3", "1.5em"][rng.below(9)].to_string(),
+            4 if depth < 2 => format!("{}(\"{}\")", ["rgb", "image", "text", "luma"][rng.below(4)], ["a", "b.png", "ünï"][rng.below(3)]),
+            5 => "(1, 2)".to_string(),
+            6 => format!("\"{}\"", prose.chars().take(30).filter(|c| *c != '"' && *c != '\\').collect::<String>()),
+            _ => ["x", "it.body", "1 + 2"][rng.below(3)].to_string(),
+        };
+        match rng.below(5) { 0 | 1 => format!("{}: {val}", named[rng.below(named.len())]), 2 => named[rng.below(named.len())].to_string(), _ => val }
+    };
+    let mut out = String::new();
+    for i in 0..rng.range(1, 3) {
+        if i > 0 || rng.chance(1, 2) { out.push_str(prose); out.push(' '); }
+        let f = funcs[rng.below(funcs.len())];
+        let n = rng.range(0, 4);
+        let args: Vec<String> = (0..n).map(|_| arg(rng, 0)).collect();
+        out.push_str(&format!("#{f}({})", args.join(", ")));
+        if rng.chance(1, 3) { out.push_str(&format!("[{}]", prose.chars().take(20).collect::<String>())); }
+        out.push_str(if rng.chance(1, 2) { "\n\n" } else { " " });
+    }
+    out
+}
